@@ -89,6 +89,15 @@ def make_trees(r, tier, names, fgs, drv=None):
             trees.append(("prefixed", T.Node("Glc", [(an, c1, r.choice([3, 4, 6]), T.Node(nm))])))
         if free:
             trees.append(("prefixed", T.Node("Gal", [("b", c1, 3, T.Node(nm, [(r.choice("ab"), 1, free[0], T.Node(r.choice(["Man", "Fuc", "Xyl"])))]))])))
+    # trehalose-type 1-1 linkages (the child sits on the reducing end's anomeric oxygen), as main chain and in brackets, next
+    # to one or two ordinary branches
+    for _ in range(4 if tier == "quick" else 30):
+        root = r.choice(["Glc", "Gal", "Man", "Glc6S", "GlcNAc"])
+        T.RES.setdefault("Glc6S", (1, (2, 3, 4), (), "hexp-mod"))
+        one = (r.choice("ab"), 1, 1, T.Node(r.choice(["Glc", "Gal", "Man"]), [("a", 1, 2, T.Node("Man"))] if r.random() < 0.4 else []))
+        others = [(r.choice("ab"), 1, p_, T.Node(r.choice(["Gal", "Fuc", "Xyl"]))) for p_ in r.sample([3, 4] if root == "GlcNAc" else [2, 3, 4], r.choice([1, 2]))]
+        trees.append(("one-one", T.Node(root, [one] + others)))
+        trees.append(("one-one", T.Node(root, others + [one])))
     # four substituents on a root and on an inner residue
     four = T.Node("Man", [("a", 1, 2, T.Node("Gal")), ("a", 1, 3, T.Node("Fuc")), ("b", 1, 4, T.Node("Xyl")), ("b", 1, 6, T.Node("GlcNAc"))])
     trees.append(("four", four))
@@ -159,7 +168,7 @@ def run(tier):
                     {"no_failing_input": True, "what_no_longer_checks": broken, "theorems": names_thm})
     report.assumptions = ["the per-residue reference is the library's own conversion of the residue alone (as the property states)",
                           "formula and ring count are the Coq functions Chem.formula / Chem.n_rings of the Coq reading (Smiles.sem) of the returned strings; validated against RDKit per instance by the O1 check of C02"]
-    extra = {"rule": "trees of 2-6 (quick) / 2-12 (thorough) residues over (a) the core vocabulary with free positions, (b) the complete library x ring form x D/L x random modification tokens, (c) alditol / anhydro roots, (d) N-glycosidic parents, (e) size-extended residues (LDManHep, 6dAltHep, AraHexf, ...7P) as child, parent and inner residue, (f) four substituents, (g) residues with prefix-only modifications (deoxy, anhydro, D-/L-, epimers) as child under a and b and as inner residue; evaluated only when glycan and every residue convert; distinct = distinct glycan strings",
+    extra = {"rule": "trees of 2-6 (quick) / 2-12 (thorough) residues over (a) the core vocabulary with free positions, (b) the complete library x ring form x D/L x random modification tokens, (c) alditol / anhydro roots, (d) N-glycosidic parents, (e) size-extended residues (LDManHep, 6dAltHep, AraHexf, ...7P) as child, parent and inner residue, (f) four substituents, (h) trehalose-type 1-1 linkages on a branched reducing end, (g) residues with prefix-only modifications (deoxy, anhydro, D-/L-, epimers) as child under a and b and as inner residue; evaluated only when glycan and every residue convert; distinct = distinct glycan strings",
              "skipped_no_molecule": skipped, "by_kind": kinds,
              "print_assumptions": res.assumptions.get(f"Props/{PROP}.v", "").strip().splitlines()[-4:]}
     return report.finish("proof", ob, dis, names_thm, trusted=C.TRUSTED, extra=extra)
